@@ -302,13 +302,19 @@ def answer (line : String) : String :=
       let num := arms.any hasNum
       let oracleUnr := (List.range arms.length).filter (unreachableBF ty arms)
       let ica := interiorCatchAll arms
+      -- a known class is only ever attached to a verdict that the model of the code AS IT IS reproduces;
+      -- a compiler verdict that differs from the model is never explained away
+      let exhAgree := if implIce then mHead == "ice" else mHead == head
+      let unrAgree := implIce || sameSet mUnr unr
       let whyExh : List String :=
         if parts.exh then [] else
+        if !exhAgree then ["unclassified-exh"] else
         if partial_ then ["struct-rest-positional"]
         else if implIce && num && arms.any hasTypedU8 then ["literal-suffix-mix-ice"]
         else if num then ["literal-width-u64"] else ["unclassified-exh"]
       let whyUnr : List String :=
         if parts.unr then [] else
+        if !unrAgree then ["unclassified-unr"] else
         -- warnings ⊆ oracle and the only missing one is the interior catch-all arm itself
         let missing := oracleUnr.filter (!unr.contains ·)
         let extra := unr.filter (!oracleUnr.contains ·)
@@ -325,7 +331,7 @@ def answer (line : String) : String :=
       let modelWitOK := mHead == "nonexh" && !mWit.isEmpty && mWit.all (witnessOK ty arms)
       let whyWit : List String :=
         if parts.wit then [] else
-        if implExh then ["unclassified-wit"] else
+        if implExh || !exhAgree then ["unclassified-wit"] else
         if partial_ then ["struct-rest-positional"]
         else if mHead != "nonexh" then ["unclassified-wit"]
         else if modelWitOK then ["tuple-display-dedup"]
@@ -343,7 +349,18 @@ def answer (line : String) : String :=
       let why := if typeErr then ["typecheck-twin-tuples"] else (whyExh ++ whyUnr ++ whyWit ++ whyRun ++ whyOther).eraseDups
       let prop := parts.all && !implOther
       let frag := arms.all (·.hasTy ty)
-      s!"{mHead} unreachable={showIdxs mUnr} agree={b01 agree} prop={b01 prop} why={joinPlus why} pe={b01 parts.exh} pw={b01 parts.wit} pu={b01 parts.unr} pr={b01 parts.run} bf={b01 (exhaustiveBF ty arms)} fragment={b01 frag} witness={witnessKey} arms={arms.length} ran={b01 (!runs.isEmpty)}"
+      let hasOr := arms.any fun a => match a with
+        | .or _ => true
+        | _ => false
+      -- a reachable top-level or-arm whose LAST alternative adds nothing (the earlier alternatives carry it)
+      let orLastDead := (List.range arms.length).any fun k => match arms[k]? with
+        | some (.or alts) =>
+          !unreachableBF ty arms k &&
+          (match alts.getLast? with
+            | some l => (allValues ty).all fun v => !l.matches v || covered (arms.take k ++ alts.dropLast) v
+            | none => false)
+        | _ => false
+      s!"{mHead} unreachable={showIdxs mUnr} agree={b01 agree} prop={b01 prop} why={joinPlus why} pe={b01 parts.exh} pw={b01 parts.wit} pu={b01 parts.unr} pr={b01 parts.run} bf={b01 (exhaustiveBF ty arms)} fragment={b01 frag} witness={witnessKey} arms={arms.length} ran={b01 (!runs.isEmpty)} orarm={b01 hasOr} orlastdead={b01 orLastDead}"
     | _, _, _, _ => "bad-case agree=0 prop=0 why=unclassified-parse"
   | _, _ => "bad-line agree=0 prop=0 why=unclassified-parse"
 
